@@ -150,4 +150,5 @@ def run(ck):
         ck.ob("CONST", f.path, "chunk-sizes-divide-64", vals and all(v and 64 % v == 0 for v in vals), "chunk sizes %s all divide 64" % sorted(vals), f.loc())
 
     narrowing_len_sweep(ck, crate("rs", "concordium_base"), re.compile(r"concordium_base::encrypted_transfers::"), re.compile(r"verify[a-z_0-9]*(::\{closure#\d+\})*$"))
+    conditional_transcript_sweep(ck, crate("rs", "concordium_base"), re.compile(r"concordium_base::encrypted_transfers::"), floor=1)
     eq_polarity_sweep(ck, crate("rs", "concordium_base"), re.compile(r"concordium_base::encrypted_transfers::"), re.compile(r"verify[a-z_0-9]*(::\{closure#\d+\})*$"))
